@@ -23,6 +23,8 @@ pub enum COp {
 #[derive(Clone, Debug)]
 pub struct CHist {
     pub ops: Vec<COp>,
+    /// "pay" (payload language, nodes bind at most one slot) or "sym" (multi-slot leaves, nodes binding two slots)
+    pub lang: &'static str,
 }
 
 /// the committed witness of known finding KF-C20-1 (independent of the generators)
@@ -41,6 +43,7 @@ pub fn directed_kf1() -> CHist {
             COp::Extract(0),
             COp::Dump,
         ],
+        lang: "pay",
     }
 }
 
@@ -51,6 +54,10 @@ thread_local! {
 pub fn gen_chist(rng: &mut Rng, with_dump: bool) -> CHist {
     if DIRECTED_KF1.with(|d| d.get()) {
         return directed_kf1();
+    }
+    // a third of the histories run over the symbolic language (multi-slot leaves, nodes that bind two slots, no payloads)
+    if rng.chance(1, 3) {
+        return gen_chist_sym(rng, with_dump);
     }
     // half of the histories are free of Symbol payloads (the known interner-order dependence cannot show in them)
     let with_symbols = rng.chance(1, 2);
@@ -96,11 +103,61 @@ pub fn gen_chist(rng: &mut Rng, with_dump: bool) -> CHist {
             ops.push(COp::Explain(rng.below(nadd), rng.below(nadd)));
         }
     }
-    CHist { ops }
+    CHist { ops, lang: "pay" }
+}
+
+fn gen_chist_sym(rng: &mut Rng, with_dump: bool) -> CHist {
+    let cfg = GenCfg { lang: &LSYM, ops: vec!["f", "g", "h", "k", "var", "c", "d", "u", "app", "pair", "lam", "sum", "let", "bb", "idx"], ns: 3, max_depth: 3, max_names: 4, shadow: rng.chance(1, 3) };
+    let rules: Vec<(&str, &str, &str)> = vec![
+        ("app-comm", "(app ?a ?b)", "(app ?b ?a)"),
+        ("pair-swap", "(pair ?a ?b)", "(pair ?b ?a)"),
+        ("f-comm", "(f $x $y)", "(f $y $x)"),
+        ("h-rot", "(h $x $y $z)", "(h $y $z $x)"),
+        ("beta", "(app (lam $x ?b) ?t)", "?b[(var $x) := ?t]"),
+        ("let-elim", "(let $x ?b ?e)", "(app (lam $x ?b) ?e)"),
+        ("bb-swap", "(bb $x $y ?a)", "(bb $y $x ?a)"),
+        ("sum-intro", "(u ?a)", "(sum ?a $x (var $x))"),
+    ];
+    let pats = ["(app ?a ?b)", "(lam $x ?b)", "(f $x $y)", "(bb $x $y ?a)", "(sum ?a $x ?b)", "?a", "(h $x $y $x)"];
+    let n = rng.range(6, 16);
+    let mut ops = vec![];
+    let mut nadd = 0;
+    for _ in 0..n {
+        let roll = rng.below(100);
+        if roll < 40 || nadd < 2 {
+            let t = gen_closed_term(rng, &cfg);
+            ops.push(COp::Add(t.text(&LSYM, &pname)));
+            nadd += 1;
+        } else if roll < 60 {
+            ops.push(COp::Union(rng.below(nadd), rng.below(nadd)));
+        } else if roll < 72 {
+            let k = rng.range(1, 3);
+            let mut idx = rng.perm(rules.len());
+            idx.truncate(k);
+            ops.push(COp::Rewrite(idx.into_iter().map(|i| (rules[i].0.to_string(), rules[i].1.to_string(), rules[i].2.to_string())).collect()));
+        } else if roll < 84 {
+            ops.push(COp::Match(pats[rng.below(pats.len())].to_string()));
+        } else if roll < 94 {
+            ops.push(COp::Extract(rng.below(nadd)));
+        } else if with_dump {
+            ops.push(COp::Dump);
+        } else {
+            ops.push(COp::Explain(rng.below(nadd), rng.below(nadd)));
+        }
+    }
+    CHist { ops, lang: "sym" }
 }
 
 /// Replays the history and renders every observable result. `at_op` is called at every operation boundary.
 pub fn transcript(h: &CHist, print_live: bool, at_op: &mut dyn FnMut(usize)) -> Result<Vec<String>, PanicInfo> {
+    if h.lang == "sym" {
+        transcript_l::<LSym>(h, print_live, at_op)
+    } else {
+        transcript_l::<LPay>(h, print_live, at_op)
+    }
+}
+
+fn transcript_l<LPay: Language + 'static>(h: &CHist, print_live: bool, at_op: &mut dyn FnMut(usize)) -> Result<Vec<String>, PanicInfo> {
     let mut out: Vec<String> = vec![];
     let mut emit = |s: String, out: &mut Vec<String>| {
         if print_live {
